@@ -144,3 +144,466 @@ Example singleton_example :
   rw_singleton (ECmp (EName 1) [EOp Lt (EName 2); EOp NotEq (EConst ANone)])
   = Some (ECmp (EName 1) [EOp Lt (EName 2); EOp IsNot (EConst ANone)]).
 Proof. reflexivity. Qed.
+
+(* ------------------------------------------------------------------------------------------- *)
+(* values: induction principle, decidable equality, key equality is an equivalence *)
+
+Section ValInd.
+  Variable P : val -> Prop.
+  Hypothesis HNone : P VNone.
+  Hypothesis HBool : forall b, P (VBool b).
+  Hypothesis HInt : forall z, P (VInt z).
+  Hypothesis HStr : forall s, P (VStr s).
+  Hypothesis HObj : forall o, P (VObj o).
+  Hypothesis HTuple : forall l, Forall P l -> P (VTuple l).
+  Hypothesis HList : forall l, Forall P l -> P (VList l).
+  Hypothesis HSet : forall l, Forall P l -> P (VSet l).
+  Hypothesis HDict : forall d, Forall (fun kv => P (fst kv) /\ P (snd kv)) d -> P (VDict d).
+  Hypothesis HIter : forall l, Forall P l -> P (VIter l).
+
+  Fixpoint val_ind' (v : val) : P v :=
+    let fl := fix fl (l : list val) : Forall P l :=
+      match l with
+      | [] => Forall_nil P
+      | x :: tl => Forall_cons x (val_ind' x) (fl tl)
+      end in
+    match v with
+    | VNone => HNone
+    | VBool b => HBool b
+    | VInt z => HInt z
+    | VStr s => HStr s
+    | VObj o => HObj o
+    | VTuple l => HTuple l (fl l)
+    | VList l => HList l (fl l)
+    | VSet l => HSet l (fl l)
+    | VIter l => HIter l (fl l)
+    | VDict d =>
+        HDict d ((fix fd (d : list (val * val)) : Forall (fun kv => P (fst kv) /\ P (snd kv)) d :=
+                    match d with
+                    | [] => Forall_nil _
+                    | (k, v) :: tl => Forall_cons (k, v) (conj (val_ind' k) (val_ind' v)) (fd tl)
+                    end) d)
+    end.
+End ValInd.
+
+Definition leqb (x y : list val) : bool :=
+  (fix leq (x y : list val) : bool :=
+     match x, y with
+     | [], [] => true
+     | p :: x', q :: y' => val_eqb p q && leq x' y'
+     | _, _ => false
+     end) x y.
+
+Lemma leqb_cons : forall p x q y, leqb (p :: x) (q :: y) = val_eqb p q && leqb x y.
+Proof. reflexivity. Qed.
+
+Lemma leqb_true : forall x, Forall (fun a => forall b, val_eqb a b = true -> a = b) x ->
+  forall y, leqb x y = true -> x = y.
+Proof.
+  induction 1 as [|a x Ha Hx IH]; intros [|b y] H; try reflexivity; try discriminate.
+  rewrite leqb_cons in H. apply andb_true_iff in H as [H1 H2].
+  f_equal; [apply Ha; assumption | apply IH; assumption].
+Qed.
+
+Lemma val_eqb_true : forall a b, val_eqb a b = true -> a = b.
+Proof.
+  induction a as [| | | | |l IH|l IH|l IH|d IH|l IH] using val_ind'; intros [] Hab; cbn in Hab;
+    try discriminate; try reflexivity.
+  - f_equal. apply Bool.eqb_prop. assumption.
+  - f_equal. apply Z.eqb_eq. assumption.
+  - f_equal. apply Nat.eqb_eq. assumption.
+  - f_equal. apply Nat.eqb_eq. assumption.
+  - f_equal. apply leqb_true; assumption.
+  - f_equal. apply leqb_true; assumption.
+  - f_equal. apply leqb_true; assumption.
+  - f_equal. revert d0 Hab. induction IH as [|[k v] d [Hk Hv] Hd IHd]; intros [|[k' v'] d'] Hab;
+      try reflexivity; try discriminate.
+    apply andb_true_iff in Hab as [Hab H3]. apply andb_true_iff in Hab as [H1 H2].
+    cbn in Hk, Hv. f_equal; [f_equal; [apply Hk|apply Hv]; assumption | apply IHd; assumption].
+  - f_equal. apply leqb_true; assumption.
+Qed.
+
+Lemma leqb_refl : forall x, Forall (fun a => val_eqb a a = true) x -> leqb x x = true.
+Proof.
+  induction 1 as [|a x Ha Hx IH]; [reflexivity|]. rewrite leqb_cons, Ha, IH. reflexivity.
+Qed.
+
+Lemma val_eqb_refl : forall a, val_eqb a a = true.
+Proof.
+  induction a as [| | | | |l IH|l IH|l IH|d IH|l IH] using val_ind'; cbn; try reflexivity.
+  - apply Bool.eqb_reflx.
+  - apply Z.eqb_refl.
+  - apply Nat.eqb_refl.
+  - apply Nat.eqb_refl.
+  - apply leqb_refl; assumption.
+  - apply leqb_refl; assumption.
+  - apply leqb_refl; assumption.
+  - induction IH as [|[k v] d [Hk Hv] Hd IHd]; [reflexivity|]. cbn in Hk, Hv. rewrite Hk, Hv, IHd. reflexivity.
+  - apply leqb_refl; assumption.
+Qed.
+
+Lemma val_eqb_iff : forall a b, val_eqb a b = true <-> a = b.
+Proof. split; [apply val_eqb_true | intros ->; apply val_eqb_refl]. Qed.
+
+Lemma val_eqb_false : forall a b, val_eqb a b = false <-> a <> b.
+Proof.
+  intros a b. split.
+  - intros H E. subst. rewrite val_eqb_refl in H. discriminate.
+  - intros H. destruct (val_eqb a b) eqn:E; [|reflexivity]. apply val_eqb_true in E. contradiction.
+Qed.
+
+Lemma key_eqb_iff : forall a b, key_eqb a b = true <-> norm a = norm b.
+Proof. intros. apply val_eqb_iff. Qed.
+
+Lemma key_eqb_refl : forall a, key_eqb a a = true.
+Proof. intros. apply key_eqb_iff. reflexivity. Qed.
+
+Lemma key_eqb_sym : forall a b, key_eqb a b = key_eqb b a.
+Proof.
+  intros. destruct (key_eqb a b) eqn:E1, (key_eqb b a) eqn:E2; try reflexivity.
+  - apply key_eqb_iff in E1. symmetry in E1. apply key_eqb_iff in E1. congruence.
+  - apply key_eqb_iff in E2. symmetry in E2. apply key_eqb_iff in E2. congruence.
+Qed.
+
+Lemma key_eqb_trans : forall a b c, key_eqb a b = true -> key_eqb b c = true -> key_eqb a c = true.
+Proof. intros a b c H1 H2. apply key_eqb_iff in H1, H2. apply key_eqb_iff. congruence. Qed.
+
+(* replacing one side by a key-equal value does not change the answer *)
+Lemma key_eqb_congr_l : forall a b c, key_eqb a b = true -> key_eqb a c = key_eqb b c.
+Proof.
+  intros a b c H. destruct (key_eqb b c) eqn:E.
+  - eapply key_eqb_trans; eassumption.
+  - destruct (key_eqb a c) eqn:E2; [|reflexivity].
+    rewrite key_eqb_sym in H. rewrite (key_eqb_trans _ _ _ H E2) in E. discriminate.
+Qed.
+
+(* ------------------------------------------------------------------------------------------- *)
+(* sets *)
+
+Definition key_in (v : val) (s : list val) : bool := existsb (key_eqb v) s.
+
+Lemma key_in_congr : forall a b s, key_eqb a b = true -> key_in a s = key_in b s.
+Proof.
+  intros a b s H. unfold key_in. induction s as [|x s IH]; [reflexivity|].
+  cbn. rewrite IH. rewrite (key_eqb_congr_l a b x H). reflexivity.
+Qed.
+
+Lemma key_in_app : forall v s t, key_in v (s ++ t) = key_in v s || key_in v t.
+Proof. intros. unfold key_in. apply existsb_app. Qed.
+
+Lemma set_add_in : forall s v, key_in v (set_add s v) = true.
+Proof.
+  intros. unfold set_add. fold (key_in v s). destruct (key_in v s) eqn:E; [assumption|].
+  rewrite key_in_app. cbn. rewrite key_eqb_refl. apply orb_true_r.
+Qed.
+
+Lemma set_add_mono : forall s v x, key_in x s = true -> key_in x (set_add s v) = true.
+Proof.
+  intros. unfold set_add. fold (key_in v s). destruct (key_in v s); [assumption|].
+  rewrite key_in_app, H. reflexivity.
+Qed.
+
+Lemma set_add_absorb : forall s v, key_in v s = true -> set_add s v = s.
+Proof. intros. unfold set_add. fold (key_in v s). rewrite H. reflexivity. Qed.
+
+Lemma fold_set_add_mono : forall vs s x, key_in x s = true -> key_in x (fold_left set_add vs s) = true.
+Proof.
+  induction vs as [|v vs IH]; intros; [assumption|]. cbn. apply IH. apply set_add_mono. assumption.
+Qed.
+
+Lemma atom_eqb_key : forall a b, atom_eqb a b = key_eqb (val_of_atom a) (val_of_atom b).
+Proof.
+  intros [|x|x|x] [|y|y|y]; try reflexivity.
+  unfold atom_eqb, key_eqb. cbn [akey fst snd val_of_atom norm val_eqb]. rewrite Z.eqb_refl. cbn [andb].
+  destruct (Nat.eqb x y) eqn:E.
+  - apply Nat.eqb_eq in E. subst. apply Z.eqb_refl.
+  - apply Nat.eqb_neq in E. apply Z.eqb_neq. lia.
+Qed.
+
+Lemma hashable_atom : forall a, hashable (val_of_atom a) = true.
+Proof. destruct a; reflexivity. Qed.
+
+Definition seen_in (seen : list atom) (s : list val) : Prop :=
+  forall a, List.In a seen -> key_in (val_of_atom a) s = true.
+
+Lemma seen_in_mono : forall seen s vs, seen_in seen s -> seen_in seen (fold_left set_add vs s).
+Proof. intros seen s vs H a Ha. apply fold_set_add_mono. apply H. assumption. Qed.
+
+Lemma seen_covers : forall seen s a, seen_in seen s -> existsb (atom_eqb a) seen = true ->
+  key_in (val_of_atom a) s = true.
+Proof.
+  intros seen s a H E. apply existsb_exists in E as [a' [Hin Heq]].
+  rewrite atom_eqb_key in Heq. rewrite (key_in_congr _ _ s Heq). apply H. assumption.
+Qed.
+
+(* the relation between evaluating the elements and evaluating the de-duplicated elements *)
+Definition dedup_rel (seen : list atom) (r r' : option (list val * trace)) : Prop :=
+  match r, r' with
+  | Some (vs, t1), Some (vs', t2) =>
+      t1 = t2 /\ forallb hashable vs' = forallb hashable vs /\
+      forall s, seen_in seen s -> fold_left set_add vs' s = fold_left set_add vs s
+  | None, None => True
+  | _, _ => False
+  end.
+
+Lemma dedup_elts_rel : forall w en l seen tr,
+  dedup_rel seen (eval_elts (eval w) en l tr) (eval_elts (eval w) en (dedup_set_elts seen l) tr).
+Proof.
+  intros w en. induction l as [|e tl IH]; intros seen tr.
+  - cbn. repeat split; reflexivity.
+  - assert (Hother : forall seen',
+              (forall s v tr1, eval w e en tr = Some (v, tr1) -> seen_in seen s -> seen_in seen' (set_add s v)) ->
+              dedup_rel seen
+                (match eval w e en tr with
+                 | Some (v, tr1) => match eval_elts (eval w) en tl tr1 with
+                                    | Some (rest, tr2) => Some (v :: rest, tr2) | None => None end
+                 | None => None end)
+                (match eval w e en tr with
+                 | Some (v, tr1) => match eval_elts (eval w) en (dedup_set_elts seen' tl) tr1 with
+                                    | Some (rest, tr2) => Some (v :: rest, tr2) | None => None end
+                 | None => None end)).
+    { intros seen' Hs. destruct (eval w e en tr) as [[v tr1]|] eqn:Ev; [|exact I].
+      specialize (IH seen' tr1). unfold dedup_rel in *.
+      destruct (eval_elts (eval w) en tl tr1) as [[vs t1]|],
+               (eval_elts (eval w) en (dedup_set_elts seen' tl) tr1) as [[vs' t2]|]; try contradiction; [|exact I].
+      destruct IH as [-> [Hh Hf]]. repeat split.
+      - cbn. rewrite Hh. reflexivity.
+      - intros s Hin. cbn. apply Hf. eapply Hs; [reflexivity|assumption]. }
+    assert (Hsame : forall s v tr1, eval w e en tr = Some (v, tr1) -> seen_in seen s -> seen_in seen (set_add s v)).
+    { intros s v tr1 _ H a Ha. apply set_add_mono. apply H. assumption. }
+    destruct e; cbn [dedup_set_elts];
+      try (cbn [eval_elts]; apply (Hother seen Hsame)).
+    + (* EConst *)
+      destruct (existsb (atom_eqb a) seen) eqn:Eseen.
+      * cbn [eval_elts eval]. specialize (IH seen tr). unfold dedup_rel in *.
+        destruct (eval_elts (eval w) en tl tr) as [[vs t1]|],
+                 (eval_elts (eval w) en (dedup_set_elts seen tl) tr) as [[vs' t2]|]; try contradiction; [|exact I].
+        destruct IH as [-> [Hh Hf]]. repeat split.
+        -- cbn. rewrite hashable_atom. assumption.
+        -- intros s Hin. cbn. rewrite set_add_absorb by (eapply seen_covers; eassumption). apply Hf. assumption.
+      * cbn [eval_elts]. apply (Hother (a :: seen)).
+        intros s v tr1 Ev Hin a' [<-|Ha'].
+        -- cbn [eval] in Ev. injection Ev as <- _. apply set_add_in.
+        -- apply set_add_mono. apply Hin. assumption.
+    + (* EStar *)
+      cbn [eval_elts]. destruct (eval w e en tr) as [[v tr1]|]; [|exact I].
+      destruct (items_of v) as [vs0|]; [|exact I].
+      specialize (IH seen tr1). unfold dedup_rel in *.
+      destruct (eval_elts (eval w) en tl tr1) as [[vs t1]|],
+               (eval_elts (eval w) en (dedup_set_elts seen tl) tr1) as [[vs' t2]|]; try contradiction; [|exact I].
+      destruct IH as [-> [Hh Hf]]. repeat split.
+      * rewrite !forallb_app, Hh. reflexivity.
+      * intros s Hin. rewrite !fold_left_app. apply Hf. apply seen_in_mono. assumption.
+Qed.
+
+(* fixes.remove_duplicate_set_elts: a constant equal (as a key: 1 == True) to an earlier constant of
+   the display is dropped; same set (first element wins), same calls of the other elements *)
+Theorem dup_set_sound : forall w e e',
+  rw_dup_set e = Some e' ->
+  forall en tr, eval w e' en tr = eval w e en tr.
+Proof.
+  intros w e e' Hr en tr. destruct e; try discriminate. destruct k; try discriminate.
+  cbn [rw_dup_set] in Hr. destruct (length (dedup_set_elts [] elts) <? length elts)%nat; [|discriminate].
+  injection Hr as <-. rewrite !eval_ESeq.
+  pose proof (dedup_elts_rel w en elts [] tr) as H. unfold dedup_rel in H.
+  destruct (eval_elts (eval w) en elts tr) as [[vs t1]|],
+           (eval_elts (eval w) en (dedup_set_elts [] elts) tr) as [[vs' t2]|]; try contradiction; [|reflexivity].
+  destruct H as [-> [Hh Hf]]. unfold mkset. rewrite Hh, (Hf []); [reflexivity|].
+  intros a [].
+Qed.
+
+Example dup_set_example :
+  rw_dup_set (ESeq KSet [EConst (AInt 1); ECall 0 []; EConst (ABool true); EStar (EName 2); EConst (AInt 1)])
+  = Some (ESeq KSet [EConst (AInt 1); ECall 0 []; EStar (EName 2)]).
+Proof. reflexivity. Qed.
+
+(* ------------------------------------------------------------------------------------------- *)
+(* induction principle for expressions (nested lists) *)
+
+Section ExprInd.
+  Variable P : expr -> Prop.
+  Hypothesis HConst : forall a, P (EConst a).
+  Hypothesis HName : forall x, P (EName x).
+  Hypothesis HCall : forall f args, Forall P args -> P (ECall f args).
+  Hypothesis HBi : forall b args, Forall P args -> P (EBi b args).
+  Hypothesis HSeq : forall k elts, Forall P elts -> P (ESeq k elts).
+  Hypothesis HDict : forall items, Forall P items -> P (EDict items).
+  Hypothesis HCmp : forall l rest, P l -> Forall P rest -> P (ECmp l rest).
+  Hypothesis HNot : forall e, P e -> P (ENot e).
+  Hypothesis HComp : forall k elt dval t iter ifs,
+      P elt -> P dval -> P iter -> Forall P ifs -> P (EComp k elt dval t iter ifs).
+  Hypothesis HStar : forall e, P e -> P (EStar e).
+  Hypothesis HKw : forall k e, P e -> P (EKw k e).
+  Hypothesis HKV : forall k v, P k -> P v -> P (EKV k v).
+  Hypothesis HDStar : forall v, P v -> P (EDStar v).
+  Hypothesis HOp : forall o e, P e -> P (EOp o e).
+
+  Fixpoint expr_ind' (e : expr) : P e :=
+    let fl := fix fl (l : list expr) : Forall P l :=
+      match l with
+      | [] => Forall_nil P
+      | x :: tl => Forall_cons x (expr_ind' x) (fl tl)
+      end in
+    match e with
+    | EConst a => HConst a
+    | EName x => HName x
+    | ECall f args => HCall f args (fl args)
+    | EBi b args => HBi b args (fl args)
+    | ESeq k elts => HSeq k elts (fl elts)
+    | EDict items => HDict items (fl items)
+    | ECmp l rest => HCmp l rest (expr_ind' l) (fl rest)
+    | ENot e1 => HNot e1 (expr_ind' e1)
+    | EComp k elt dval t iter ifs =>
+        HComp k elt dval t iter ifs (expr_ind' elt) (expr_ind' dval) (expr_ind' iter) (fl ifs)
+    | EStar e1 => HStar e1 (expr_ind' e1)
+    | EKw k e1 => HKw k e1 (expr_ind' e1)
+    | EKV k v => HKV k v (expr_ind' k) (expr_ind' v)
+    | EDStar v => HDStar v (expr_ind' v)
+    | EOp o e1 => HOp o e1 (expr_ind' e1)
+    end.
+End ExprInd.
+
+(* ------------------------------------------------------------------------------------------- *)
+(* sorting *)
+
+Definition indist (l : list val) : Prop :=
+  forall a b, List.In a l -> List.In b l -> zk a = zk b -> a = b.
+
+Definition indistb (l : list val) : bool :=
+  forallb (fun a => forallb (fun b => negb (zk a =? zk b) || val_eqb a b) l) l.
+
+Lemma indistb_spec : forall l, indistb l = true -> indist l.
+Proof.
+  intros l H a b Ha Hb Hk. unfold indistb in H. rewrite forallb_forall in H.
+  specialize (H a Ha). rewrite forallb_forall in H. specialize (H b Hb).
+  rewrite Hk, Z.eqb_refl in H. cbn in H. apply val_eqb_true. assumption.
+Qed.
+
+Lemma insert_perm : forall x l, Permutation (insert x l) (x :: l).
+Proof.
+  induction l as [|y tl IH]; cbn; [apply Permutation_refl|].
+  destruct (zk x <=? zk y); [apply Permutation_refl|].
+  eapply perm_trans; [apply perm_skip; exact IH | apply perm_swap].
+Qed.
+
+Lemma sort_cons : forall x l, sort (x :: l) = insert x (sort l).
+Proof. reflexivity. Qed.
+
+Lemma sort_perm : forall l, Permutation (sort l) l.
+Proof.
+  induction l as [|x l IH]; [constructor|]. rewrite sort_cons.
+  eapply perm_trans; [apply insert_perm | apply perm_skip; exact IH].
+Qed.
+
+Lemma insert_comm : forall a b l, (zk a <> zk b \/ a = b) ->
+  insert a (insert b l) = insert b (insert a l).
+Proof.
+  intros a b l [Hne | ->]; [|reflexivity].
+  induction l as [|y tl IH]; cbn.
+  - destruct (Z.leb_spec (zk a) (zk b)), (Z.leb_spec (zk b) (zk a)); try reflexivity; lia.
+  - destruct (Z.leb_spec (zk b) (zk y)), (Z.leb_spec (zk a) (zk y)); cbn.
+    + destruct (Z.leb_spec (zk a) (zk b)), (Z.leb_spec (zk b) (zk a)); try lia.
+      * destruct (Z.leb_spec (zk b) (zk y)); [reflexivity|lia].
+      * destruct (Z.leb_spec (zk a) (zk y)); [reflexivity|lia].
+    + destruct (Z.leb_spec (zk a) (zk b)); [lia|].
+      destruct (Z.leb_spec (zk a) (zk y)); [lia|].
+      destruct (Z.leb_spec (zk b) (zk y)); [reflexivity|lia].
+    + destruct (Z.leb_spec (zk b) (zk a)); [lia|].
+      destruct (Z.leb_spec (zk b) (zk y)); [lia|].
+      destruct (Z.leb_spec (zk a) (zk y)); [reflexivity|lia].
+    + destruct (Z.leb_spec (zk a) (zk y)); [lia|].
+      destruct (Z.leb_spec (zk b) (zk y)); [lia|]. rewrite IH. reflexivity.
+Qed.
+
+Lemma indist_perm : forall l l', Permutation l l' -> indist l -> indist l'.
+Proof.
+  intros l l' Hp H a b Ha Hb. apply H; eapply Permutation_in; try eassumption; apply Permutation_sym; assumption.
+Qed.
+
+Lemma indist_tail : forall x l, indist (x :: l) -> indist l.
+Proof. intros x l H a b Ha Hb. apply H; right; assumption. Qed.
+
+Lemma sort_perm_inv : forall l l', Permutation l l' -> indist l -> sort l = sort l'.
+Proof.
+  induction 1 as [|x l l' Hp IH|x y l|l l' l'' Hp1 IH1 Hp2 IH2]; intros Hi.
+  - reflexivity.
+  - rewrite !sort_cons. rewrite IH; [reflexivity|]. eapply indist_tail; eassumption.
+  - rewrite !sort_cons. apply insert_comm.
+    destruct (Z.eq_dec (zk y) (zk x)) as [E|E]; [right|left; assumption].
+    apply Hi; [left; reflexivity | right; left; reflexivity | assumption].
+  - rewrite IH1 by assumption. apply IH2. eapply indist_perm; eassumption.
+Qed.
+
+Lemma sort_rev : forall l, indist l -> sort (rev l) = sort l.
+Proof.
+  intros l H. symmetry. apply sort_perm_inv; [apply Permutation_rev | assumption].
+Qed.
+
+(* the sort is stable: it distinguishes [True, 1] from [1, True] *)
+Lemma sort_rev_refuted : exists l, sort (rev l) <> sort l.
+Proof. exists [VBool true; VInt 1]. vm_compute. discriminate. Qed.
+
+Definition le_key (a b : val) : Prop := zk a <= zk b.
+
+Lemma insert_sorted_head : forall x l, Forall (le_key x) l -> insert x l = x :: l.
+Proof.
+  intros x [|y tl] H; [reflexivity|]. cbn. inversion H as [|? ? Hxy _]; subst. unfold le_key in Hxy.
+  destruct (Z.leb_spec (zk x) (zk y)); [reflexivity|lia].
+Qed.
+
+Inductive ssorted : list val -> Prop :=
+| ss_nil : ssorted []
+| ss_cons : forall x l, Forall (le_key x) l -> ssorted l -> ssorted (x :: l).
+
+Lemma sort_id : forall l, ssorted l -> sort l = l.
+Proof.
+  induction 1 as [|x l Hx Hs IH]; [reflexivity|]. rewrite sort_cons, IH. apply insert_sorted_head. assumption.
+Qed.
+
+Lemma insert_ssorted : forall x l, ssorted l -> ssorted (insert x l).
+Proof.
+  intros x l H. induction H as [|y l Hy Hs IH]; cbn.
+  - constructor; constructor.
+  - destruct (Z.leb_spec (zk x) (zk y)).
+    + constructor; [|constructor; assumption].
+      constructor; [assumption|]. eapply Forall_impl; [|exact Hy]. unfold le_key. intros; lia.
+    + constructor; [|assumption].
+      eapply Permutation_Forall; [apply Permutation_sym, insert_perm|].
+      constructor; [unfold le_key; lia | assumption].
+Qed.
+
+Lemma sort_ssorted : forall l, ssorted (sort l).
+Proof. induction l as [|x l IH]; [constructor | rewrite sort_cons; apply insert_ssorted; assumption]. Qed.
+
+Lemma sort_sort : forall l, sort (sort l) = sort l.
+Proof. intros. apply sort_id, sort_ssorted. Qed.
+
+Lemma sortable_spec : forall l,
+  sortable l = true <->
+  (forall a, List.In a l -> 0 <= cls a) /\ (forall a b, List.In a l -> List.In b l -> cls a = cls b).
+Proof.
+  intros [|x l]; cbn [sortable].
+  - split; [intros _; split; [intros ? [] | intros ? ? []] | reflexivity].
+  - rewrite andb_true_iff, forallb_forall. split.
+    + intros [H0 H]. apply Z.leb_le in H0.
+      assert (Hc : forall a, List.In a (x :: l) -> cls a = cls x) by (intros a Ha; apply Z.eqb_eq, H, Ha).
+      split; [intros a Ha; rewrite (Hc a Ha); assumption | intros a b Ha Hb; rewrite (Hc a Ha), (Hc b Hb); reflexivity].
+    + intros [H0 H]. split; [apply Z.leb_le, H0; left; reflexivity|].
+      intros a Ha. apply Z.eqb_eq. apply H; [assumption | left; reflexivity].
+Qed.
+
+Lemma sortable_perm : forall l l', Permutation l l' -> sortable l = true -> sortable l' = true.
+Proof.
+  intros l l' Hp H. apply sortable_spec in H as [H0 H]. apply sortable_spec. apply Permutation_sym in Hp. split.
+  - intros a Ha. apply H0. eapply Permutation_in; eassumption.
+  - intros a b Ha Hb. apply H; eapply Permutation_in; eassumption.
+Qed.
+
+Lemma sum_num_perm : forall l l', Permutation l l' -> sum_num l = sum_num l'.
+Proof.
+  induction 1 as [|x l l' Hp IH|x y l|l l' l'' Hp1 IH1 Hp2 IH2]; cbn.
+  - reflexivity.
+  - rewrite IH. reflexivity.
+  - destruct (num x), (num y), (sum_num l); try reflexivity. f_equal. lia.
+  - congruence.
+Qed.
